@@ -1,7 +1,11 @@
 import Driver.CscIO
+import Driver.ConeIO
 import ClarabelModel.Json
+import ClarabelModel.JsonLoad
+import ClarabelModel.JsonCones
 
-open Clarabel Driver Clarabel.Update Clarabel.Json
+open Clarabel Driver Clarabel.Update Clarabel.Json Clarabel.JsonLoad
+open Clarabel.JsonCones (JVal encodeCones decodeCones)
 
 namespace C19Driver
 
@@ -20,8 +24,203 @@ def ofTL : TimeLimit Float → Float
 def fmtJsonFloats (xs : Array Float) : String :=
   ",".intercalate (xs.toList.map (fun x => if x.isFinite then fmtFloat x else "null"))
 
+/-- the harness is built with `faer-sparse` and `sdp` -/
+def features : Features := { faer := true, sdp := true }
+
+/-- the settings fields a record carries, with key prefix `p` -/
+def recSettings (kv : KV) (p : String) : Option (LSettings Float Unit) := do
+  let dsm ← kv.str (p ++ "dsm")
+  let mm ← kv.str (p ++ "mm")
+  let tl ← kv.float (p ++ "tl")
+  let pre ← kv.nat (p ++ "pre")
+  let chord ← kv.nat (p ++ "chord")
+  pure { timeLimit := toTL tl,
+         rest := { directSolveMethod := dsm, mergeMethod := mm, presolveEnable := pre != 0,
+                   chordalEnable := chord != 0, other := () } }
+
+/-- `DefaultSettings::default()` (what `#[serde(default)] settings` gives a record without
+the key) -/
+def defaultSettings : LSettings Float Unit :=
+  { timeLimit := .infinity,
+    rest := { directSolveMethod := "auto", mergeMethod := "clique_graph", presolveEnable := true,
+              chordalEnable := true, other := () } }
+
+def fmtCscP (p : String) (M : Csc Float) : String :=
+  s!"{p}m={M.m} {p}n={M.n} {p}colptr={fmtNats M.colptr} {p}rowval={fmtNats M.rowval} {p}nzval={fmtFloats M.nzval}"
+
+def handleLoad (kv : KV) : String :=
+  match kv.csc "P", kv.csc "A", kv.floats "q", kv.floats "b", kv.cones "cones", kv.nat "hasset", kv.nat "arg" with
+  | some P, some A, some q, some b, some cones, some hasset, some arg =>
+    let fileSettings? := if hasset != 0 then recSettings kv "" else some defaultSettings
+    let argSettings? : Option (Option (LSettings Float Unit)) :=
+      if arg != 0 then (recSettings kv "a").map some else some none
+    match fileSettings?, argSettings? with
+    | some fs, some argS =>
+      let rec_ : Record Float Unit := { P, q, A, b, cones, settings := fs }
+      match loadRecord features rec_ argS with
+      | .error e => e.toString
+      | .ok inp =>
+        match buildFromInput inp (1e20 : Float) with
+        | .error (.panic s) => "panic:" ++ s.map (fun c => if c == ' ' then '_' else c)
+        | .error (.err k) => "err:" ++ k
+        | .ok d =>
+          let st := inp.settings
+          let head := s!"ok=1 n={d.n} m={d.m} tl={fmtFloat (ofTL st.timeLimit)} dsm={st.rest.directSolveMethod} mm={st.rest.mergeMethod} pre={fmtBool st.rest.presolveEnable} chord={fmtBool st.rest.chordalEnable} cones={fmtCones d.cones}"
+          -- the internal data is compared when the solver was built without equilibration
+          if hasset != 0 || arg != 0 then
+            s!"{head} {fmtCscP "P" d.P} q={fmtFloats d.q} {fmtCscP "A" d.A} b={fmtFloats d.b}"
+          else head
+    | _, _ => "bad-request"
+  | _, _, _, _, _, _, _ => "bad-request"
+
+/-! ### a tiny JSON reader / writer for the cone channels (strings without escapes) -/
+
+def isWs (c : Char) : Bool := c == ' ' || c == '\n' || c == '\t' || c == '\r'
+
+def skipWs (cs : List Char) : List Char := cs.dropWhile isWs
+
+def isNumChar (c : Char) : Bool :=
+  c.isDigit || c == '-' || c == '+' || c == '.' || c == 'e' || c == 'E'
+
+/-- the characters of a string up to the closing quote (no escape sequences) -/
+def parseStr : List Char → List Char → Option (String × List Char)
+  | [], _ => none
+  | '"' :: r, acc => some (String.ofList acc.reverse, r)
+  | '\\' :: _, _ => none
+  | c :: r, acc => parseStr r (c :: acc)
+
+mutual
+partial def parseVal (cs : List Char) : Option (JVal × List Char) :=
+  match skipWs cs with
+  | '{' :: rest =>
+    match skipWs rest with
+    | '}' :: r => some (.obj [], r)
+    | r => (parseMembers r []).map (fun (kvs, r') => (.obj kvs, r'))
+  | '[' :: rest =>
+    match skipWs rest with
+    | ']' :: r => some (.arr [], r)
+    | r => (parseElems r []).map (fun (xs, r') => (.arr xs, r'))
+  | '"' :: rest => (parseStr rest []).map (fun (s, r) => (.str s, r))
+  | 't' :: 'r' :: 'u' :: 'e' :: r => some (.bool true, r)
+  | 'f' :: 'a' :: 'l' :: 's' :: 'e' :: r => some (.bool false, r)
+  | 'n' :: 'u' :: 'l' :: 'l' :: r => some (.null, r)
+  | c :: rest =>
+    if isNumChar c then
+      some (.num (String.ofList ((c :: rest).takeWhile isNumChar)), (c :: rest).dropWhile isNumChar)
+    else none
+  | [] => none
+
+partial def parseElems (cs : List Char) (acc : List JVal) : Option (List JVal × List Char) :=
+  match parseVal cs with
+  | none => none
+  | some (v, r) =>
+    match skipWs r with
+    | ',' :: r' => parseElems r' (v :: acc)
+    | ']' :: r' => some ((v :: acc).reverse, r')
+    | _ => none
+
+partial def parseMembers (cs : List Char) (acc : List (String × JVal)) :
+    Option (List (String × JVal) × List Char) :=
+  match skipWs cs with
+  | '"' :: r =>
+    match parseStr r [] with
+    | some (k, r1) =>
+      match skipWs r1 with
+      | ':' :: r2 =>
+        match parseVal r2 with
+        | some (v, r3) =>
+          match skipWs r3 with
+          | ',' :: r4 => parseMembers r4 ((k, v) :: acc)
+          | '}' :: r4 => some (((k, v) :: acc).reverse, r4)
+          | _ => none
+        | none => none
+      | _ => none
+    | none => none
+  | _ => none
+end
+
+def parseJson (s : String) : Option JVal :=
+  match parseVal s.toList with
+  | some (v, r) => if (skipWs r).isEmpty then some v else none
+  | none => none
+
+/-- compact text, as `serde_json::to_string` writes it -/
+partial def render : JVal → String
+  | .null => "null"
+  | .bool b => if b then "true" else "false"
+  | .num t => t
+  | .str s => "\"" ++ s ++ "\""
+  | .arr xs => "[" ++ ",".intercalate (xs.map render) ++ "]"
+  | .obj kvs => "{" ++ ",".intercalate (kvs.map (fun (k, v) => "\"" ++ k ++ "\":" ++ render v)) ++ "}"
+
+/-- cone wire format with the float payloads as their JSON tokens (`p:0.4`, `g:0.3;0.7:2`) -/
+def fmtConeTok : ConeT String → String
+  | .zero n => s!"z{n}"
+  | .nonneg n => s!"n{n}"
+  | .soc n => s!"q{n}"
+  | .exp => "e"
+  | .pow a => "p:" ++ a
+  | .genpow αs d => "g:" ++ ";".intercalate αs.toList ++ s!":{d}"
+  | .psd n => s!"s{n}"
+
+def parseConeTok (tok : String) : Option (ConeT String) :=
+  match tok.toList with
+  | ['e'] => some .exp
+  | 'z' :: cs => (parseNatSuffix cs).map .zero
+  | 'n' :: cs => (parseNatSuffix cs).map .nonneg
+  | 'q' :: cs => (parseNatSuffix cs).map .soc
+  | 's' :: cs => (parseNatSuffix cs).map .psd
+  | 'p' :: ':' :: cs => some (.pow (String.ofList cs))
+  | 'g' :: ':' :: cs =>
+    match (String.ofList cs).splitOn ":" with
+    | [as, d] => do
+      let dim2 ← d.toNat?
+      pure (.genpow (if as.isEmpty then [] else as.splitOn ";").toArray dim2)
+    | _ => none
+  | _ => none
+
+def handleConeDec (kv : KV) : String :=
+  match kv.str "text" with
+  | some text =>
+    match parseJson text with
+    | some v =>
+      match decodeCones (fun t => some t) true v with
+      | some cs => "cones=" ++ ",".intercalate (cs.map fmtConeTok)
+      | none => "err"
+    | none => "err"
+  | none => "bad-request"
+
+def handleConeEnc (kv : KV) : String :=
+  match kv.str "cones" with
+  | some w =>
+    match (splitList w).mapM parseConeTok with
+    | some cs => "text=" ++ render (encodeCones id cs)
+    | none => "bad-request"
+  | none => "bad-request"
+
+def handleSaveRec (kv : KV) : String :=
+  match kv.csc "P", kv.csc "A", kv.floats "q", kv.floats "b", kv.floats "dinv", kv.floats "einv",
+      kv.float "c", kv.cones "cones", kv.float "tl", recSettings kv "" with
+  | some P, some A, some q, some b, some dinv, some einv, some c, some cones, some _, some st =>
+    let state : State Float := { (default : State Float) with P := P, A := A, q := q, b := b, dinv := dinv, einv := einv, c := c }
+    if !(P.rowval.size == P.nzval.size && A.rowval.size == A.nzval.size
+         && P.rowval.all (fun r => decide (r < dinv.size)) && A.rowval.all (fun r => decide (r < einv.size))
+         && P.colptr.size == dinv.size + 1 && A.colptr.size == dinv.size + 1
+         && P.colptr.getD dinv.size 0 == P.nzval.size && A.colptr.getD dinv.size 0 == A.nzval.size
+         && q.size == dinv.size && b.size == einv.size) then "panic:json.saverec-ill-formed"
+    else
+      let r := saveRecord ({ st := state, cones := cones, settings := st } : SaveState Float Unit)
+      let tl := ofTL r.settings.timeLimit
+      let tlTok := if tl.isFinite then fmtFloat tl else "null"
+      s!"Pm={r.P.m} Pn={r.P.n} Pcolptr={fmtNats r.P.colptr} Prowval={fmtNats r.P.rowval} P={fmtJsonFloats r.P.nzval} q={fmtJsonFloats r.q} Am={r.A.m} An={r.A.n} Acolptr={fmtNats r.A.colptr} Arowval={fmtNats r.A.rowval} A={fmtJsonFloats r.A.nzval} b={fmtJsonFloats r.b} cones={fmtCones r.cones} tl={tlTok} dsm={r.settings.rest.directSolveMethod} mm={r.settings.rest.mergeMethod} pre={fmtBool r.settings.rest.presolveEnable} chord={fmtBool r.settings.rest.chordalEnable}"
+  | _, _, _, _, _, _, _, _, _, _ => "bad-request"
+
 def handle (ch : String) (kv : KV) : String :=
   match ch with
+  | "json.load" => handleLoad kv
+  | "json.saverec" => handleSaveRec kv
+  | "json.conedec" => handleConeDec kv
+  | "json.coneenc" => handleConeEnc kv
   | "json.save" =>
     match kv.csc "P", kv.csc "A", kv.floats "q", kv.floats "b", kv.floats "dinv", kv.floats "einv", kv.float "c" with
     | some P, some A, some q, some b, some dinv, some einv, some c =>
